@@ -62,6 +62,12 @@ var rangeKinds = []rangeKind{
 		scripts: map[string]string{"none": ""},
 		sorder:  []string{"none"},
 		after:   "len(xs)"},
+	{name: "mapnan", keyT: "float64", valT: "int", forms: []string{"kv", "k", "_v", "none"},
+		values:  map[string]string{"nan1": "map[float64]int{math.NaN(): 1}", "nan2": "map[float64]int{math.NaN(): 1, math.Inf(1): 1, math.NaN(): 1}"},
+		vorder:  []string{"nan1", "nan2"},
+		scripts: map[string]string{"none": ""},
+		sorder:  []string{"none"},
+		after:   "len(xs)"},
 	{name: "chan", keyT: "int", valT: "", forms: []string{"k", "none"},
 		values:  map[string]string{"zeros": "mkchan(0, 1, 0)", "empty": "mkchan()", "one": "mkchan(5)"},
 		vorder:  []string{"zeros", "empty", "one"},
@@ -102,7 +108,7 @@ func (p rangeProg) text(id string) string {
 	w(0, "func %s(c *rt.Ctx) Iter[int] {", id)
 	w(1, "xs := %s", k.values[p.value])
 	w(1, "_ = xs")
-	isMap := k.name == "map" || k.name == "mapany"
+	isMap := k.name == "map" || k.name == "mapany" || k.name == "mapnan"
 	hasK := p.form == "kv" || p.form == "k" || p.form == "k_"
 	hasV := p.form == "kv" || p.form == "_v"
 	var hdr string
@@ -154,9 +160,9 @@ func (p rangeProg) text(id string) string {
 	if hasV {
 		uses = append(uses, "v")
 	}
-	if isMap && k.name == "map" {
+	if isMap && (k.name == "map" || k.name == "mapnan") {
 		// iteration order is unspecified: per-iteration observations must not depend on it
-		if hasK {
+		if hasK && k.name == "map" {
 			w(ind+1, "seen[k] = true")
 		}
 		if len(uses) > 0 {
@@ -197,7 +203,7 @@ func (p rangeProg) text(id string) string {
 	}
 	// observations after the loop: iteration count, the '=' variables, the collection
 	obs := []string{"n"}
-	if p.tok == "=" && !(isMap && k.name == "map" && p.value == "three") {
+	if p.tok == "=" && !(isMap && (k.name == "map" && p.value == "three" || k.name == "mapnan")) {
 		if hasK {
 			obs = append(obs, "k")
 		}
@@ -310,7 +316,7 @@ func rangeReductions(key string) []string {
 
 func rangeFamily(name, tier string, goInt bool) *FamilySpec {
 	fs := &FamilySpec{Name: name, Reductions: rangeReductions, ShardSize: 60}
-	fs.Template = pipeline.Spec{DeriveRef: true, NoTmp: true, PerFile: 6, SImports: []string{`"fmt"`}, SFiles: map[string]string{"extra.go": rangeExtra}}
+	fs.Template = pipeline.Spec{DeriveRef: true, NoTmp: true, PerFile: 6, SImports: []string{`"fmt"`, `"math"`}, SHeaderDecl: "var _ = math.NaN\n\n", SFiles: map[string]string{"extra.go": rangeExtra}}
 	if goInt {
 		fs.Template.GoVer = "1.22"
 		fs.Template.SFiles = nil
